@@ -1,6 +1,7 @@
 package main
 
 import (
+	"go/token"
 	"go/types"
 	"fmt"
 	"strings"
@@ -25,9 +26,19 @@ func (e *Engine) rootsAtField(v ssa.Value, typSuffix, field string) bool {
 
 func runC19(e *Engine, r *Report, tier string) {
 	r.Explanation = "C19, structural clauses. Decided: R1 lifecycle of the IBC transfer relation (erc20 family 0x04, set by the precompile's IBC send keyed channel/sequence): in the middleware keeper every success path of the acknowledgement handler and of the timeout handler passes through a call that (through the wired crosschain -> erc20 keepers) deletes family 0x04, with key arguments rooted in packet.SourceChannel / packet.Sequence and passed through unchanged; R2 the refund re-converts to ERC-20 only behind `delete of 0x04 returned true`, for the packet's sender as both payer and receiver; R3 inbound: conversion to ERC-20 is dominated by `denom != FX` and `receiver is a hex address` (else error), its coin amount is the packet amount, and every keeper error becomes an error acknowledgement after the inner module succeeded (never the success ack); R4 the memo call's EVM sender is the hash of (packet source port/channel, packet data sender) and nothing else. Not decided: duplicated/replayed acknowledgements (IBC core), whether source or destination channel identifiers are the right uniqueness domain (observation in DESIGN.md)."
-	r.Rule("R1", "relation 0x04 deleted on ack-success, ack-error and timeout; keyed by packet source channel + sequence", 4, "terminal callbacks of the middleware keeper")
+	r.Rule("R1", "relation 0x04 deleted on ack-success, ack-error and timeout; keyed by packet source channel + sequence; ack classified by response type", 5, "terminal callbacks of the middleware keeper")
 	r.Rule("R2", "refund converts only if the relation existed; holder = packet sender", 2, "")
 	r.Rule("R3", "inbound conversion guarded; keeper error -> error acknowledgement", 3, "")
+	r.Rule("R6", "a failing conversion of a received coin fails the packet (its error is never swallowed): C04.R8 at the middleware", 1, "C04 obligations")
+	{
+		sub04 := NewReport("C04", "other")
+		runC04(e, sub04, tier)
+		for _, o := range sub04.Obls {
+			if o.Rule == "R8" && strings.Contains(o.Construct, "x/ibc/middleware") {
+				r.add("R6", "C04.R8 "+o.Construct, o.Status, o.Pos, o.Detail)
+			}
+		}
+	}
 	r.Rule("R4", "intermediate sender = hash(source port/channel, data.Sender), rendered injectively", 3, "")
 
 	// R5: the relation key is an injective encoding of (channel, sequence)
@@ -83,6 +94,55 @@ func runC19(e *Engine, r *Report, tier string) {
 			continue
 		}
 		k := e.FnKey(fn)
+		if name == "OnAcknowledgementPacket" {
+			// "rejected" is decided the way the transfer module decides it: by the type of ack.Response (or ack.Success()),
+			// not by a property of the error text — otherwise the two layers disagree on some acknowledgements
+			okClass, other := false, ""
+			for _, b := range fn.Blocks {
+				iff, ok := b.Instrs[len(b.Instrs)-1].(*ssa.If)
+				if !ok {
+					continue
+				}
+				cond := iff.Cond
+				for {
+					if u, ok := cond.(*ssa.UnOp); ok && u.Op == token.NOT {
+						cond = u.X
+						continue
+					}
+					break
+				}
+				isType := false
+				switch x := cond.(type) {
+				case *ssa.Extract:
+					if ta, ok := x.Tuple.(*ssa.TypeAssert); ok && strings.Contains(ta.AssertedType.String(), "Acknowledgement_") {
+						isType = true
+					}
+				case *ssa.Call:
+					if callName(x) == "Success" {
+						isType = true
+					}
+				}
+				if isType {
+					okClass = true
+					continue
+				}
+				// another test over the acknowledgement
+				dep := false
+				for _, p := range fn.Params {
+					if strings.HasSuffix(p.Type().String(), "types.Acknowledgement") && e.rootsParam(cond, p) {
+						dep = true
+					}
+				}
+				if dep {
+					other = regNames.ReplaceAllString(vkey(cond, 0), "")
+				}
+			}
+			if other != "" {
+				r.Fail("R1", k+" classification", e.Pos(fn.Pos()), "the acknowledgement is classified by "+other+" instead of the type of its response: an error acknowledgement the transfer module refunds (e.g. one with an empty error text) is treated as a success here, so the bank refund is never converted back to ERC-20 and the relation is dropped")
+			} else {
+				r.Check(okClass, "R1", k+" classification", e.Pos(fn.Pos()), "rejected / accepted decided by the type of ack.Response", "no classification of the acknowledgement by its response type found")
+			}
+		}
 		// every success path deletes 0x04 (directly or in a helper called on that path)
 		helperDeletes := func(i ssa.Instruction) bool {
 			if deletes04(i) {
